@@ -384,6 +384,17 @@ class _Run(object):
         self.scope = live.ConfigScope(ITER_STREAMING=self.streaming, ITER_STREAM_LIFETIME=self.LT, ITER_STREAM_LINGER=self.G)
         self.scope.__enter__()
         self.clock.now = CLOCK0
+        import Pyro5.api as _api
+        import uuid as _uuid
+        if case["config"].get("corr"):
+            # the client gives all its requests of this case one correlation id (request tracing across several streams)
+            _api.current_context.correlation_id = _uuid.UUID(int=0xC10C10 + self.caseno)
+            self.labels.add("client-correlation-id")
+        else:
+            _api.current_context.correlation_id = None
+        self.D.v_hook_raises = bool(case["config"].get("hook_raises"))       # an application disconnect hook that fails
+        if self.D.v_hook_raises:
+            self.labels.add("disconnect-hook-raises")
         if not self.streaming:
             self.labels.add("streaming-off")
         uri = self.S.uri("c10")
@@ -449,6 +460,9 @@ class _Run(object):
         PLANS.pop("c%dfail" % self.caseno, None)
         if self.scope is not None:
             self.scope.__exit__()
+        import Pyro5.api as _api
+        _api.current_context.correlation_id = None
+        self.D.v_hook_raises = False
         D = self.D
         live.wait_for(lambda: self.open_server_conns() == 0, 5.0, step=0.0005)
         with D.housekeeper_lock:
@@ -809,7 +823,7 @@ def case_strategy(draw, max_ops=25, max_items=6):
     table = OPTABLES[draw(st.sampled_from(["mixed", "nexty", "clocky"]))]
     least = draw(st.sampled_from([3, 6, 10, 15, 20]))
     nums = draw(st.lists(st.integers(0, 799), min_size=least, max_size=max_ops - len(opens)))
-    return {"config": {"streaming": streaming, "lifetime": lifetime, "linger": linger}, "plans": plans,
+    return {"config": {"streaming": streaming, "lifetime": lifetime, "linger": linger, "corr": draw(st.integers(0, 3)) == 0, "hook_raises": draw(st.integers(0, 4)) == 0}, "plans": plans,
             "ops": ([["open", p] for p in opens] + decode_ops(nums, table))[:max_ops + 1]}
 
 
